@@ -13,6 +13,7 @@ import SlVerif.Drv.Bip32
 import SlVerif.Drv.SoftSpoken
 import SlVerif.Drv.Rvole
 import SlVerif.Drv.C11
+import SlVerif.Drv.Wrappers
 /-
   sldriver: line-protocol server around the executable models.
   request:  `<ns> <op> <args…>`           (one line)
@@ -37,6 +38,7 @@ def dispatch (O : Query → IO Bytes) (toks : List String) : IO String := do
   | "venc" :: rest => do pure ((← Drv.VerEnc.handle O rest).getD "!bad-op")
   | "rvole" :: rest => do pure ((← Drv.Rvole.handle O rest).getD "!bad-op")
   | "c11" :: rest => pure ((Drv.C11.handle rest).getD "!bad-op")
+  | "wrap" :: rest => do pure ((← Drv.Wrappers.handle O rest).getD "!bad-op")
   | ["ping"] => pure "pong"
   | _ => pure "!bad-op"
 
